@@ -386,6 +386,22 @@ def r20_iter_skip(text):
         text = text[:m.start()] + f'{ind}for {i} in {k}..{x}.len() {{ let {w} = {x}[{i}];' + text[m.end():]
 
 
+def r21_let_map_collect(text):
+    """`let NAME: Vec<T> = X.into_iter().map(|V| E).collect();` (X a Vec of a Copy type) =>
+    `let mut NAME__o = Vec::new(); for m__N in 0..X.len() { let V = X[m__N]; NAME__o.push(E); } let NAME: Vec<T> = NAME__o;`"""
+    n = 0
+    while True:
+        m = re.search(r'(?m)^(\s*)let (\w+): (Vec<\w+>) = (\w+)\.into_iter\(\)\.map\(\|(\w+)\| ([^|;{}]+)\)\.collect\(\);[ \t]*$', text)
+        if not m:
+            return text, n
+        n += 1
+        ind, name, ty, x, v, e = m.groups()
+        k = f'm__{n}'
+        new = (f'{ind}let mut {name}__o = Vec::new(); for {k} in 0..{x}.len() {{ let {v} = {x}[{k}]; {name}__o.push({e}); }} '
+               f'let {name}: {ty} = {name}__o;')
+        text = text[:m.start()] + new + text[m.end():]
+
+
 def r10_windows2(text):
     """`for W in X.windows(2) {` => `for w__N in 0..(if X.len() >= 2 { X.len() - 1 } else { 0 }) { let W = [X[w__N], X[w__N + 1]];`
     (Verus has no specification of slice::Windows; for Copy elements W[0], W[1] read the same values)."""
@@ -447,7 +463,7 @@ def r7_param_patterns(text):
     return _apply_edits(text, edits), n
 
 
-RULES = [('R0', r0_visibility_and_stats), ('R1', r1_ref_patterns), ('R7', r7_param_patterns), ('R8', r8_assert_eq), ('R9', r9_subslice_copy), ('R10', r10_windows2), ('R11', r11_collect), ('R12', r12_subslice_to_subslice), ('R13', r13_copied_take), ('R15', r15_iter_all_eq), ('R16', r16_map_collect_tail), ('R17', r17_match_arm_ref_guard), ('R18', r18_bool_bitand), ('R20', r20_iter_skip),
+RULES = [('R0', r0_visibility_and_stats), ('R1', r1_ref_patterns), ('R7', r7_param_patterns), ('R8', r8_assert_eq), ('R9', r9_subslice_copy), ('R10', r10_windows2), ('R11', r11_collect), ('R12', r12_subslice_to_subslice), ('R13', r13_copied_take), ('R15', r15_iter_all_eq), ('R16', r16_map_collect_tail), ('R17', r17_match_arm_ref_guard), ('R18', r18_bool_bitand), ('R20', r20_iter_skip), ('R21', r21_let_map_collect),
          ('R2', r2_array_literal_loops), ('R3', r3_zip_enumerate)]
 
 
